@@ -6,7 +6,7 @@
 From Coq Require Import List Arith NArith Permutation.
 From Falco Require Import Base.Res Gen.InferScopes Model.Include Model.ScopeInfer
   Proofs.IncludeTotal Proofs.ScopeInferLfp Proofs.ScopeInferTerm Proofs.DetectOrder Proofs.InferMain
-  Proofs.DeclPerm.
+  Proofs.DeclPerm Proofs.DetectSpec.
 Import ListNotations.
 
 (* Include expansion terminates within (number of module files + 1) nested calls on EVERY module
@@ -76,6 +76,25 @@ Theorem C11_cycle_set_order_free :
                  Permutation w w' /\ (forall n, In n w <-> In n w').
 Proof. exact cycle_set_order_free. Qed.
 
+(* WHAT detectRecursion computes: for every enumeration order of the keys, the names written into inCycle
+   all reach a cycle of the call graph, every enumerated start name that reaches a cycle is written, and when
+   the order covers every name that has callees (the keys of graph) the written set is exactly
+   { f | f reaches a cycle }.  [reaches_cycle callees f] = exists c, f ->* c /\ c ->+ c. *)
+Theorem C11_detect_spec :
+  forall (callees : name -> list name) (nodes order : list name),
+    (forall n, In n nodes -> incl (callees n) nodes) -> incl order nodes ->
+    exists w, detect callees (S (length nodes)) order = OK w /\
+      (forall f, In f w -> reaches_cycle callees f) /\
+      (forall s, In s order -> reaches_cycle callees s -> In s w) /\
+      ((forall f, callees f <> [] -> In f order) -> forall f, In f w <-> reaches_cycle callees f).
+Proof. exact detect_spec. Qed.
+
+(* ... which is NOT "lies on a cycle" (the message says "is involved in recursive call"): a subroutine that
+   merely calls a recursive one is reported too *)
+Theorem C11_detect_on_cycle_refuted :
+  exists callees order w f, detect callees 3 order = OK w /\ In f w /\ ~ on_cycle callees f.
+Proof. exact detect_on_cycle_refuted. Qed.
+
 (* the map-ordered report passes (lintUnused*, the report loop of detectRecursion) yield the same
    multiset of diagnostics for every key order *)
 Theorem C11_unused_multiset_order_free :
@@ -108,6 +127,8 @@ Proof. exact decl_permutation_refuted. Qed.
 
 Print Assumptions C11_infer_decl_permutation.
 Print Assumptions C11_decl_permutation_refuted.
+Print Assumptions C11_detect_spec.
+Print Assumptions C11_detect_on_cycle_refuted.
 Print Assumptions C11_include_total.
 Print Assumptions C11_include_cycle_reported.
 Print Assumptions C11_include_unrepaired_refuted.
